@@ -26,6 +26,14 @@ impl Copy for BoundingBox {}
 #[verifier::external_body] pub struct InputEvent { _p: u8 }
 #[verifier::external_body] pub struct RngCell { _p: u8 }
 #[verifier::external_body] pub struct ElemTable { _p: u8 }
+impl ElemTable {
+    /// HashMap<String, SvgElement> (assumed contract of insert)
+    pub uninterp spec fn view(&self) -> Map<Seq<char>, SvgElement>;
+    #[verifier::external_body]
+    pub fn insert(&mut self, k: String, v: SvgElement) -> (r: Option<SvgElement>)
+        ensures final(self)@ == old(self)@.insert(k@, v), (r is None) == !old(self)@.dom().contains(k@)
+    { unimplemented!() }
+}
 #[verifier::external_body] pub struct VarTable { _p: u8 }
 #[verifier::external_body] pub struct DefaultsList { _p: u8 }
 #[verifier::external_body] pub struct TransformConfigRest { _p: u8 }
@@ -196,8 +204,13 @@ impl TransformerContext {
 //@ - final(self).in_specs == old(self).in_specs && final(self).config == old(self).config
 //@end
 
-    #[verifier::external_body]
-    pub fn update_element(&mut self, el: &SvgElement) ensures scope_untouched(*old(self), *final(self)) { unimplemented!() }
+//@item src/context.rs :: impl TransformerContext :: fn update_element
+//@ ensures
+//@ - scope_untouched(*old(self), *final(self))
+//@ - forall|id: Seq<char>| #[trigger] old(self).original_map@.dom().contains(id) && old(self).elem_map@.dom().contains(id)
+//@       ==> final(self).original_map@.dom().contains(id) && final(self).original_map@[id] == old(self).original_map@[id]     @@C18.template.write_once
+//@ - old(self).original_map@.dom() == old(self).elem_map@.dom() ==> final(self).original_map@.dom() == final(self).elem_map@.dom()     @@C18.template.registered_with_element
+//@end
     #[verifier::external_body]
     pub fn set_prev_element(&mut self, el: &SvgElement) ensures scope_untouched(*old(self), *final(self)) { unimplemented!() }
     #[verifier::external_body]
